@@ -1,30 +1,165 @@
+// Command mosssim is the simulation worker: it generates and executes cases
+// for one property and reports one JSON line per run.
 package main
 
 import (
+	"encoding/json"
+	"flag"
 	"fmt"
+	"os"
+	"path/filepath"
+	"time"
 
-	"github.com/couchbase/moss"
+	"verifsim/harness"
 	"verifsim/simrt"
 )
 
+type line struct {
+	Index   int              `json:"index"`
+	Outcome *harness.Outcome `json:"outcome,omitempty"`
+	Replay  string           `json:"replay,omitempty"`
+	Err     string           `json:"err,omitempty"`
+	WallUS  int64            `json:"wallUS"`
+	Sample  *harness.Case    `json:"sample,omitempty"`
+}
+
 func main() {
-	r := simrt.Run(simrt.Config{Seed: 1, Policy: simrt.Policy{Kind: "uniform"}}, func() {
-		c, err := moss.NewCollection(moss.CollectionOptions{})
+	prop := flag.String("prop", "C01", "property id")
+	seed := flag.Uint64("seed", 1, "base seed")
+	tier := flag.String("tier", "quick", "quick|thorough")
+	start := flag.Int("start", 0, "first run index")
+	stride := flag.Int("stride", 1, "index stride")
+	count := flag.Int("count", 0, "max runs (0 = until budget)")
+	budget := flag.Duration("budget", 10*time.Second, "wall-clock budget")
+	outdir := flag.String("outdir", "", "directory for replay files")
+	replay := flag.String("replay", "", "replay file to execute")
+	maxViol := flag.Int("maxviol", 3, "stop after this many violations")
+	dump := flag.Bool("dump", false, "print the generated case and exit")
+	minimise := flag.String("minimise", "", "replay file to minimise")
+	minout := flag.String("minout", "", "where to write the minimised replay file")
+	flag.Parse()
+
+	simrt.StartWatchdog(30 * time.Second)
+	enc := json.NewEncoder(os.Stdout)
+
+	if *replay != "" {
+		os.Exit(doReplay(*replay, enc))
+	}
+	if *minimise != "" {
+		os.Exit(doMinimise(*minimise, *minout, *budget))
+	}
+	deadline := time.Now().Add(*budget)
+	viol := 0
+	n := 0
+	for i := *start; ; i += *stride {
+		if *count > 0 && n >= *count {
+			break
+		}
+		if *count == 0 && time.Now().After(deadline) {
+			break
+		}
+		n++
+		c := harness.Gen(*prop, *seed, i, *tier)
+		if *dump {
+			b, _ := json.MarshalIndent(c, "", " ")
+			fmt.Println(string(b))
+			return
+		}
+		t0 := time.Now()
+		out, err := harness.RunCase(c)
+		l := line{Index: i, WallUS: time.Since(t0).Microseconds()}
 		if err != nil {
-			panic(err)
+			l.Err = err.Error()
+			enc.Encode(l)
+			os.Exit(2)
 		}
-		c.Start()
-		for i := 0; i < 5; i++ {
-			b, _ := c.NewBatch(0, 0)
-			b.Set([]byte(fmt.Sprintf("k%d", i)), []byte("v"))
-			c.ExecuteBatch(b, moss.WriteOptions{})
-			b.Close()
+		l.Outcome = out
+		if n <= 2 {
+			l.Sample = c
 		}
-		ss, _ := c.Snapshot()
-		v, _ := ss.Get([]byte("k3"), moss.ReadOptions{})
-		fmt.Println("k3 =", string(v))
-		ss.Close()
-		c.Close()
-	})
-	fmt.Printf("%+v\n", *r)
+		if out.Violation != nil {
+			viol++
+			if *outdir != "" {
+				l.Replay = writeReplay(*outdir, c, out)
+			}
+		}
+		enc.Encode(l)
+		if viol >= *maxViol {
+			break
+		}
+	}
+}
+
+// ReplayFile is the on-disk replay format.
+type ReplayFile struct {
+	Case      *harness.Case      `json:"case"`
+	Violation *harness.Violation `json:"violation"`
+	TraceHash uint64             `json:"traceHash"`
+	Note      string             `json:"note,omitempty"`
+}
+
+func writeReplay(dir string, c *harness.Case, out *harness.Outcome) string {
+	os.MkdirAll(dir, 0755)
+	cc := *c
+	cc.Decisions = out.Decisions
+	rf := ReplayFile{Case: &cc, Violation: out.Violation, TraceHash: out.TraceHash}
+	p := filepath.Join(dir, fmt.Sprintf("%s-%d-%d.json", c.Prop, c.Seed, c.Index))
+	b, _ := json.MarshalIndent(rf, "", " ")
+	os.WriteFile(p, b, 0644)
+	return p
+}
+
+func doReplay(path string, enc *json.Encoder) int {
+	b, err := os.ReadFile(path)
+	if err != nil {
+		fmt.Fprintln(os.Stderr, err)
+		return 2
+	}
+	var rf ReplayFile
+	if err := json.Unmarshal(b, &rf); err != nil {
+		fmt.Fprintln(os.Stderr, err)
+		return 2
+	}
+	out, err := harness.RunCase(rf.Case)
+	if err != nil {
+		fmt.Fprintln(os.Stderr, err)
+		return 2
+	}
+	enc.Encode(line{Index: rf.Case.Index, Outcome: out})
+	if out.Violation != nil {
+		fmt.Printf("VIOLATION property=%s replay=%s class=%s\n", out.Violation.Prop, path, out.Violation.Class)
+		if rf.Violation != nil && (rf.Violation.Class != out.Violation.Class || rf.Violation.Prop != out.Violation.Prop) {
+			fmt.Printf("note: recorded violation was %s/%s\n", rf.Violation.Prop, rf.Violation.Class)
+		}
+		return 1
+	}
+	return 0
+}
+
+func doMinimise(path, outPath string, budget time.Duration) int {
+	b, err := os.ReadFile(path)
+	if err != nil {
+		fmt.Fprintln(os.Stderr, err)
+		return 2
+	}
+	var rf ReplayFile
+	if err := json.Unmarshal(b, &rf); err != nil || rf.Violation == nil {
+		fmt.Fprintln(os.Stderr, "bad replay file", err)
+		return 2
+	}
+	best, out, tries := harness.Minimise(rf.Case, rf.Violation, budget)
+	if out == nil {
+		fmt.Fprintf(os.Stderr, "minimise: violation does not reproduce without its decision log (%d tries)\n", tries)
+		return 3
+	}
+	best.Decisions = out.Decisions
+	nrf := ReplayFile{Case: best, Violation: out.Violation, TraceHash: out.TraceHash,
+		Note: fmt.Sprintf("minimised from %s in %d candidate runs", filepath.Base(path), tries)}
+	nb, _ := json.MarshalIndent(nrf, "", " ")
+	if err := os.WriteFile(outPath, nb, 0644); err != nil {
+		fmt.Fprintln(os.Stderr, err)
+		return 2
+	}
+	fmt.Printf("minimised: %d candidate runs\n", tries)
+	return 0
 }
